@@ -18,6 +18,7 @@ they were read from are still there, otherwise exit 2):
 from __future__ import annotations
 
 import ast
+import re
 from dataclasses import dataclass, field
 
 from .core import AnalysisError
@@ -465,7 +466,7 @@ SLY_LEX_ANCHORS = [
     ("Lexer._build", "part = f'(?P<{tokname}>{pattern})'", "one named group per rule"),
     ("Lexer._build", "cls._master_re = cls.regex_module.compile('|'.join(parts), cls.reflags)",
      "master regex is the ordered alternation"),
-    ("Lexer.tokenize", "m = _master_re.match(text, index)", "match at the current index"),
+    ("Lexer.tokenize", r"re:m = [\w.]*master_re\.match\(text, index\)", "match at the current index (the table may be held in a local or in a record)"),
     ("Lexer.tokenize", "tok.type = m.lastgroup", "token type = the alternative that matched"),
     ("Lexer.tokenize", "tok = self.error(tok)", "error() is called when nothing matches"),
     ("Lexer.tokenize", "index = self.index", "lexing resumes where error()/actions leave self.index"),
@@ -485,10 +486,11 @@ def check_sly_anchors(src: Source, anchors=SLY_LEX_ANCHORS, rel="sly/lex.py") ->
         fn = mod.get_method(cls, meth)
         want = " ".join(text.split())
         found = False
+        rx_ = re.compile(want[3:]) if want.startswith("re:") else None
         for st in ast.walk(fn):
             if isinstance(st, ast.stmt):
                 t = norm(st)
-                if t == want or t.startswith(want):
+                if (rx_.fullmatch(t) is not None) if rx_ is not None else (t == want or t.startswith(want)):
                     found = True
                     break
         if not found:
